@@ -271,6 +271,7 @@ func c06Run(t *testing.T, c *evid.Collector) {
 	if evid.Shard() == 0 {
 		b := func(s string) []byte { return []byte(s) }
 		init0 := prog.Op{K: "init", B: "bk0", Key: "m0", Meta: [][2]string{{"X-Amz-Meta-Up", "yes"}}}
+		initAgain := prog.Op{K: "init", B: "bk0", Key: "m0", Meta: [][2]string{{"X-Amz-Meta-Up", "corrected"}, {"Content-Type", "application/json"}}}
 		for _, k := range kinds {
 			scen := [][]prog.Op{
 				{init0, {K: "part", Ref: 0, PartN: 1, Body: b("aaa")}, {K: "part", Ref: 0, PartN: 2, Body: b("bb")}, {K: "complete", Ref: 0, Parts: []prog.Part{{N: 1}, {N: 2}}}, {K: "get", B: "bk0", Key: "m0"}, {K: "complete", Ref: 0, Parts: []prog.Part{{N: 1}}}, {K: "abort", Ref: 0}},
@@ -279,6 +280,11 @@ func c06Run(t *testing.T, c *evid.Collector) {
 				{init0, init0, {K: "part", Ref: 0, PartN: 1, Body: b("first upload")}, {K: "part", Ref: 1, PartN: 1, Body: b("second upload")}, {K: "complete", Ref: 1, Parts: []prog.Part{{N: 1}}}, {K: "complete", Ref: 0, Parts: []prog.Part{{N: 1}}}},
 				{init0, {K: "part", Ref: 0, PartN: 1, Body: b("the good part one")}, {K: "part", Ref: 0, PartN: 1, Body: b("corrupted on the way"), Via: "bad-md5"}, {K: "part", Ref: 0, PartN: 2, Body: b("never accepted"), Via: "bad-md5"}, {K: "complete", Ref: 0, Parts: []prog.Part{{N: 1}, {N: 2}}}, {K: "complete", Ref: 0, Parts: []prog.Part{{N: 1}}}, {K: "get", B: "bk0", Key: "m0"}},
 				{init0, {K: "part", Ref: 0, PartN: 0, Body: b("x")}, {K: "part", Ref: 0, PartN: 10001, Body: b("x")}, {K: "part", Ref: 0, PartN: 3, Body: b("x")}, {K: "complete", Ref: 0, Parts: []prog.Part{{N: 3}}}, {K: "part", Ref: 0, PartN: 3, Body: b("late")}},
+				// the same bytes uploaded again under other metadata (to correct a header, say): the object is
+				// the one this upload was initiated as - after a multipart upload and after a plain one
+				{init0, {K: "part", Ref: 0, PartN: 1, Body: b("the same bytes")}, {K: "complete", Ref: 0, Parts: []prog.Part{{N: 1}}}, initAgain, {K: "part", Ref: 1, PartN: 1, Body: b("the same bytes")}, {K: "complete", Ref: 1, Parts: []prog.Part{{N: 1}}}, {K: "get", B: "bk0", Key: "m0"},
+					initAgain, {K: "part", Ref: 2, PartN: 4, Body: b("the same")}, {K: "part", Ref: 2, PartN: 9, Body: b(" bytes")}, init0, {K: "complete", Ref: 2, Parts: []prog.Part{{N: 4}, {N: 9}}}, {K: "part", Ref: 3, PartN: 1, Body: b("the same bytes")}, {K: "complete", Ref: 3, Parts: []prog.Part{{N: 1}}}},
+				{{K: "put", B: "bk0", Key: "m0", Body: b("the same bytes"), Meta: [][2]string{{"X-Amz-Meta-Up", "plain"}, {"Content-Type", "text/plain"}}}, initAgain, {K: "part", Ref: 0, PartN: 1, Body: b("the same bytes")}, {K: "complete", Ref: 0, Parts: []prog.Part{{N: 1}}}, {K: "get", B: "bk0", Key: "m0"}},
 			}
 			{
 				// upload IDs are issued by one counter per server: after eight finished uploads the
